@@ -202,8 +202,9 @@ func (n *c09Node) alive() bool {
 }
 
 type c09Env struct {
-	sys   *actorSystem
-	clock atomic.Int64
+	sys    *actorSystem
+	clock  atomic.Int64
+	dwBase int64 // messages the death watch had handled before the forest was built
 }
 
 func (e *c09Env) tick() int64 { return e.clock.Add(1) }
@@ -228,9 +229,10 @@ type c09Actor struct {
 }
 
 type c09Cmd struct {
-	kind  int // c09SelfStop, c09HandlerStop, c09PanicStop
-	child *PID
-	done  chan struct{}
+	kind    int // c09SelfStop, c09HandlerStop, c09PanicStop
+	child   *PID
+	started chan struct{} // closed when the handler begins
+	done    chan struct{} // closed when the handler's stop call has returned
 }
 
 func (a *c09Actor) PreStart(*Context) error {
@@ -263,6 +265,7 @@ func (a *c09Actor) Receive(ctx *ReceiveContext) {
 	if !ok {
 		return
 	}
+	close(cmd.started)
 	switch cmd.kind {
 	case c09SelfStop:
 		ctx.Shutdown()
@@ -309,20 +312,44 @@ func c09Stack() string {
 	return strings.Join(keep, "\n")
 }
 
-func (e *c09Env) settle() bool {
+// settle waits until the death watch has consumed every Terminated message. Every
+// stop call has returned, so every Terminated is already in its mailbox. The death
+// watch handles one PostStart plus one Terminated per stopped actor it watches, so
+// the primary criterion is its processed-message count reaching its count before the
+// case's first spawn + the number of PostStop runs, with its turn finished. (Its mailboxes cannot be read reliably from
+// outside the consumer: IsEmpty is documented as consumer-only, and "idle" is also
+// visible for an instant inside finishOrReclaim while a message is pending.) When a
+// Terminated was never sent (an actor outside the tree, or the finding
+// stop-before-death-watch-registration) the count is never reached: then idle +
+// empty + an unchanged count for two seconds without interruption is accepted.
+func (e *c09Env) settle(postStops func() int64) bool {
 	dw := e.sys.getDeathWatch()
 	if dw == nil {
 		return true
 	}
 	deadline := time.Now().Add(c09Cap)
+	var stableSince time.Time
+	last := -1
 	for {
-		if dw.schedState.Load() == dispatchIdle && dw.mailbox.IsEmpty() && dw.systemMailbox.IsEmpty() {
+		n := dw.ProcessedCount()
+		idle := dw.schedState.Load() == dispatchIdle
+		if idle && int64(n) >= e.dwBase+postStops() {
 			return true
 		}
+		if idle && n == last && dw.mailbox.IsEmpty() && dw.systemMailbox.IsEmpty() {
+			if stableSince.IsZero() {
+				stableSince = time.Now()
+			} else if time.Since(stableSince) > 2*time.Second {
+				return true
+			}
+		} else {
+			stableSince = time.Time{}
+		}
+		last = n
 		if time.Now().After(deadline) {
 			return false
 		}
-		time.Sleep(50 * time.Microsecond)
+		time.Sleep(200 * time.Microsecond)
 	}
 }
 
@@ -363,6 +390,7 @@ func c09Exec(x *vfkit.X, c c09Case) {
 		x.Class("inconclusive_guardians_not_started")
 		return
 	}
+	e.dwBase = c09DeathWatchBase(sys)
 
 	// build the forest
 	var nodes []*c09Node
@@ -458,24 +486,24 @@ func c09Exec(x *vfkit.X, c c09Case) {
 					waitStopped(before)
 				}
 			case c09SelfStop:
-				cmd := &c09Cmd{kind: c09SelfStop, done: make(chan struct{})}
+				cmd := &c09Cmd{kind: c09SelfStop, started: make(chan struct{}), done: make(chan struct{})}
 				before := tgt.postStops.Load()
 				if err := Tell(ctx, tgt.pid, cmd); err != nil {
 					res.skipped = "Tell failed: " + err.Error()
 				} else {
 					// the command may be dropped when somebody else stops the target first
-					c09WaitEither(cmd.done, tgt, before, &inconclusive)
+					c09WaitEither(cmd, tgt, before, &inconclusive)
 				}
 			case c09HandlerStop:
-				cmd := &c09Cmd{kind: c09HandlerStop, child: tgt.pid, done: make(chan struct{})}
+				cmd := &c09Cmd{kind: c09HandlerStop, child: tgt.pid, started: make(chan struct{}), done: make(chan struct{})}
 				before := tgt.parent.postStops.Load()
 				if err := Tell(ctx, tgt.parent.pid, cmd); err != nil {
 					res.skipped = "Tell failed: " + err.Error()
 				} else {
-					c09WaitEither(cmd.done, tgt.parent, before, &inconclusive)
+					c09WaitEither(cmd, tgt.parent, before, &inconclusive)
 				}
 			case c09PanicStop:
-				cmd := &c09Cmd{kind: c09PanicStop, done: make(chan struct{})}
+				cmd := &c09Cmd{kind: c09PanicStop, started: make(chan struct{}), done: make(chan struct{})}
 				before := tgt.postStops.Load()
 				if err := Tell(ctx, tgt.pid, cmd); err != nil {
 					res.skipped = "Tell failed: " + err.Error()
@@ -542,7 +570,15 @@ func c09Exec(x *vfkit.X, c c09Case) {
 	}
 	settled := true
 	if !stopped {
-		settled = e.settle()
+		settled = e.settle(func() int64 {
+			nodesMu.Lock()
+			defer nodesMu.Unlock()
+			var total int64
+			for _, n := range nodes {
+				total += n.postStops.Load()
+			}
+			return total
+		})
 	}
 	vfsched.SetNoise(0, 0, 0)
 	if inconclusive.Load() {
@@ -580,17 +616,27 @@ func c09AwaitGuardians(sys *actorSystem) bool {
 	}
 }
 
-// c09WaitEither waits until the command was handled or its receiver stopped.
-func c09WaitEither(done chan struct{}, n *c09Node, before int64, inconclusive *atomic.Bool) {
+// c09WaitEither waits until the command's handler has finished its stop call, or
+// until it is certain that the handler will never run: the receiver has been
+// stopped by somebody else, no dispatcher turn of it is in flight any more, and the
+// handler has not begun. (A receiver that is stopped from outside while its handler
+// is still inside ctx.Stop(child) must be waited for: that stop is still running.)
+func c09WaitEither(cmd *c09Cmd, n *c09Node, before int64, inconclusive *atomic.Bool) {
 	deadline := time.Now().Add(c09Cap)
 	for {
 		select {
-		case <-done:
+		case <-cmd.done:
 			return
 		default:
 		}
-		if n.postStops.Load() > before && !n.pid.isStateSet(stoppingState) && !n.pid.isStateSet(runningState) {
-			return
+		if n.postStops.Load() > before && !n.pid.isStateSet(stoppingState) && !n.pid.isStateSet(runningState) &&
+			n.pid.schedState.Load() == dispatchIdle {
+			select {
+			case <-cmd.started:
+				// the handler is running (or ran): keep waiting for it to finish
+			default:
+				return
+			}
 		}
 		if time.Now().After(deadline) {
 			inconclusive.Store(true)
@@ -671,10 +717,11 @@ func c09Judge(x *vfkit.X, e *c09Env, c c09Case, static, nodes []*c09Node, result
 		hits = append(hits, fp)
 		x.Class(class)
 	}
-	// A Restart that overlaps another action is not synchronised with stops at all
-	// (F-C09-4): whatever goes wrong in such a case is attributed to that finding,
-	// and while it is listed the case is only checked up to the first such symptom.
-	racyRestart := hasRestart && len(results) > 1
+	// A Restart is not synchronised with stops, nor with the death watch that handles
+	// the Terminated of its own embedded Shutdown (F-C09-4): whatever goes wrong in a
+	// case that contains a Restart is attributed to that finding, and while it is
+	// listed such a case is only checked up to the first symptom.
+	racyRestart := hasRestart
 	fail := func(fp, format string, args ...any) {
 		if racyRestart {
 			if !x.Known(c09FpRestart) {
@@ -824,6 +871,9 @@ func c09Judge(x *vfkit.X, e *c09Env, c c09Case, static, nodes []*c09Node, result
 			x.Failf("lone-stop-fails", "%s(%s) on a running actor returned %v\n%s", c09KindNames[r.act.Kind], tgt.name, r.err, desc())
 		}
 		if len(results) == 1 && r.act.Kind >= c09SystemStop && r.err != nil {
+			if r.act.Kind == c09Restart {
+				fail("lone-action-fails", "%s(%s) returned %v\n%s", c09KindNames[r.act.Kind], tgt.name, r.err, desc())
+			}
 			x.Failf("lone-action-fails", "%s(%s) returned %v\n%s", c09KindNames[r.act.Kind], tgt.name, r.err, desc())
 		}
 	}
@@ -988,6 +1038,17 @@ func c09Judge(x *vfkit.X, e *c09Env, c c09Case, static, nodes []*c09Node, result
 		x.Class("observed_actor_count_drift")
 		x.Note("actor_count_drift", fmt.Sprintf("NumActors()=%d live=%d %s", got, liveUser, desc()))
 	}
+}
+
+// c09DeathWatchBase waits for the death watch's own start-up turn and returns the
+// number of messages it has handled so far.
+func c09DeathWatchBase(sys *actorSystem) int64 {
+	dw := sys.getDeathWatch()
+	deadline := time.Now().Add(5 * time.Second)
+	for (dw.ProcessedCount() < 1 || dw.schedState.Load() != dispatchIdle) && time.Now().Before(deadline) {
+		time.Sleep(50 * time.Microsecond)
+	}
+	return int64(dw.ProcessedCount())
 }
 
 // c09StaleDiag describes who still watches a stale node and what the death watch did.
